@@ -159,6 +159,29 @@ func checkC15(c C15Case) *Violation {
 			if err != nil || back != d {
 				return vio("print-parse", "ParseDegree(%q) = %v prints as %q which parses to %v (%v)", c.Text, iv, d.String(), back, err)
 			}
+			// the number of an accepted notation is the number that is written: decimal, leading zeros or not
+			digits, runs, in := "", 0, false
+			for _, r := range c.Text {
+				if r >= '0' && r <= '9' {
+					if !in {
+						runs++
+					}
+					in = true
+					digits += string(r)
+				} else {
+					in = false
+				}
+			}
+			if runs != 1 {
+				return vio("string-accepts-malformed", "ParseDegree(%q) accepts a text with %d separate runs of digits as %v", c.Text, runs, iv)
+			}
+			n := 0
+			for _, r := range digits {
+				n = n*10 + int(r-'0')
+			}
+			if n != iv.Num {
+				return vio("string-number", "ParseDegree(%q) = %v: the text says %d (decimal), the interval has number %d", c.Text, iv, n, iv.Num)
+			}
 		case "add":
 			a, ok := builtinAttr(c.Attr)
 			if !ok {
